@@ -57,6 +57,18 @@ CHECKS = {
              "overflow only where k*x really leaves a range, never for |x| <= 2147 that R2 can hold.  Sampled grid in quick, full in thorough.",
         design_ref="3.6", technique="static_assert / compile-fail witness programs against the documented predicate + cell analysis of LLVM IR for the value clause",
         note=TRUST_W + "; " + TRUST_I, engine="W+I"),
+    "C08": dict(
+        category="proof",
+        text="Per wrapper (operator x rep pair of equal signedness or floating x unit pair with integer, reciprocal and general rational "
+             "ratios), with k1, k2 the model's integer ratios to the gcd unit and Rc the common rep: every comparison's IR DAG is evaluated "
+             "over the abstract orderings {lt,eq,gt(,unordered)} of the two atoms k1*x and k2*y and must have the operator's truth table; "
+             "the atoms must be exactly those affine forms, built only from value-preserving extensions, one multiplication each and (for "
+             "sub-int Rc) the narrowing back to Rc, compared with predicates of Rc's promoted signedness; + and - have the affine form "
+             "k1*x +- k2*y, % is srem/urem of the atoms; C++20 <=> is analysed the same way in a C++20 TU.  Hence the only premises are "
+             "'k1*x, k2*y (and the sum) fit Rc', and consistency/antisymmetry/transitivity follow.  For floating reps the constants are "
+             "checked to be k within 1 ulp and the operations plain IEEE ones; closeness of sums under cancellation is not decided.",
+        design_ref="3.8", technique="affine-form extraction and ordering truth tables over LLVM IR DAGs against model gcd-unit ratios",
+        note=TRUST_I + "; " + TRUST_W, engine="I+W"),
     "C13": dict(
         category="proof",
         text="(S) AST shape rule on the primary templates au::Quantity / au::QuantityPoint - exactly one non-static data "
